@@ -145,16 +145,15 @@ def arrGet (h : H) (a : Ref) (i : Nat) : Option Ref × H :=
     | none => (none, h)
   | _ => (none, h.bad)
 
+/-- `cbor_array_replace`.  The C code releases the old member first and then stores and increfs the new one; for a
+client that owns a reference to `x` (the rule) the two orders are indistinguishable, and the model stores
+first so that the books balance at every intermediate step. -/
 def arrReplace (h : H) (a : Ref) (i : Nat) (x : Ref) : Bool × H :=
   match h.get a with
-  | some ⟨.arr _ items _, _⟩ =>
+  | some ⟨.arr d items alloc, rc⟩ =>
     match items[i]? with
     | none => (false, h)
-    | some old =>
-      let h := h.decref old
-      match h.get a with
-      | some ⟨.arr d items alloc, rc⟩ => (true, (h.put a (some ⟨.arr d (items.set i x) alloc, rc⟩)).incref x)
-      | _ => (false, h.bad)
+    | some old => (true, ((h.put a (some ⟨.arr d (items.set i x) alloc, rc⟩)).incref x).decref old)
   | _ => (false, h.bad)
 
 def arrSet (ω : Oracle) (h : H) (a : Ref) (i : Nat) (x : Ref) : Bool × H :=
@@ -320,8 +319,13 @@ end
 
 def H.val (h : H) (r : Ref) : Option Item := Heap.val h.copyFuel h r
 
-/-- capacity after `n` pushes into an empty growing container: the least power of two ≥ n (0 for none) -/
-def capFor (n : Nat) : Nat := if n = 0 then 0 else if n = 1 then 1 else 2 ^ (Nat.log2 (n - 1) + 1)
+/-- capacity after `n` pushes into an empty growing container (the growth rule applied `n` times):
+0, 1, 2, 4, 4, 8, 8, 8, 8, 16, … — the least power of two ≥ n -/
+def capFor : Nat → Nat
+  | 0 => 0
+  | k+1 =>
+    let c := capFor k
+    if c ≤ k then (if c = 0 then 1 else 2 * c) else c
 
 mutual
 /-- allocate the cells of a tree, every node with reference count 1 (what `cbor_load` hands out);
